@@ -478,4 +478,5 @@ var DefaultInitPackages = []string{
 	"github.com/rigochain/rigo-go/genesis",
 	"github.com/rigochain/rigo-go/libs",
 	"github.com/rigochain/rigo-go/zzverif",
+	"time",
 }
